@@ -272,6 +272,24 @@ def _doc_job(job):
                     if r != base[o3[0]]:
                         acc.violation(Viol('history', 'result-differs-from-a-fresh-import', dict(case0, history=[o1[0], o2[0], o3[0]], op=o3[0]), base[o3[0]][1][:200], r[1][:200]))
         acc.count('triples', len(R) ** 3)
+    # all ordered triples of QUERY operations, each triple on its own FRESH import (narrow -> wide -> narrow sequences: on a long-lived object the
+    # first unfiltered query would arm every cache once and for all)
+    if tier != 'quick' or name.startswith(('full', 'two-kern-split', 'with-errors')):
+        qnames = ['tokens', 'tokens:CORE', 'tokens:NOTE_REST', 'tokens:SIGNATURES+BARLINES', 'unique:CORE', 'unique:NOTE_REST', 'freq', 'freq:CORE', 'freq:NOTE_REST',
+                  'freq:SIGNATURES+BARLINES', 'is_monophonic', 'meta:COM-clear', 'meta']
+        Q = [o for o in ops if o[0] in qnames]
+        for o1 in Q:
+            for o2 in Q:
+                for o3 in Q:
+                    d3, _ = kp.loads(text)
+                    call(o1, d3)
+                    call(o2, d3)
+                    r, _ = call(o3, d3)
+                    acc.count('transitions', 3)
+                    acc.count('evaluations')
+                    if r != base[o3[0]]:
+                        acc.violation(Viol('history', 'result-differs-from-a-fresh-import', dict(case0, history=[o1[0], o2[0], o3[0]], op=o3[0], fresh_triple=True), base[o3[0]][1][:200], r[1][:200]))
+        acc.count('fresh_query_triples', len(Q) ** 3)
     s_end = SN.digest([doc])
     m_end = SN.digest(SN.module_roots())
     if m_end != mod0:
